@@ -114,6 +114,11 @@ class StoreJudge:
             return      # a valid call or the kernel raised on this conveyor: what is on the belt is unknown from here on
         k = op[0]
         head, trig = parse_line(line)
+        if " !draws=" in head:
+            # Buffer edge adapter: the delay source has to be consulted exactly once per accepted put (and never outside a put)
+            head, mark = head.split(" !draws=", 1)
+            self.v("C11", f"the buffer's delay source was consulted {mark.split('/')[0]} times for {mark.split('/')[1]} accepted puts: "
+                          f"the k-th item does not get the k-th delay (a generator / stateful callable is shifted)", "draws")
         adv_end = None
         if k == "adv":
             adv_end = self.now + op[1]; self.quiescent = False
